@@ -740,13 +740,15 @@ impl Sim {
             self.calls += 1;
             self.note_args(&[a]);
             let sh = self.shadow(a);
+            // the real call comes first (everywhere): if the Rust operation panics, it is the C
+            // function that must be seen aborting, not the model
+            let got = if exec { Some(unsafe { cf(self.ptr(a)) }) } else { None };
             let exp = sh.as_ref().map(|v| mf(v));
             self.log(exp.map_or(2, |b| b as u64));
             if exp.is_none() {
                 self.fail(t);
             }
-            if exec {
-                let got = unsafe { cf(self.ptr(a)) };
+            if let Some(got) = got {
                 if got != exp.unwrap_or(false) {
                     self.mismatch(f, "wrong-result", format!("{f} returned {got}, the Rust API says {exp:?} for {}", short(&sh.as_ref().map(ident).unwrap_or("null pointer".into()))), exp.is_none());
                 }
@@ -758,6 +760,7 @@ impl Sim {
             self.calls += 1;
             self.note_args(&[a]);
             let sh = self.shadow(a);
+            let got = if exec { Some(unsafe { cf(self.ptr(a)) }) } else { None };
             let exp = sh.as_ref().and_then(|v| mf(v));
             self.log(exp.map_or(1, |x| x.to_bits()));
             if exp.is_none() {
@@ -766,8 +769,7 @@ impl Sim {
                     self.wrong_kind += 1;
                 }
             }
-            if exec {
-                let got = unsafe { cf(self.ptr(a)) };
+            if let Some(got) = got {
                 let ok = match exp {
                     Some(x) => got.to_bits() == x.to_bits() || (got.is_nan() && x.is_nan()),
                     None => got.is_nan(),
@@ -783,6 +785,7 @@ impl Sim {
             self.calls += 1;
             self.note_args(&[a]);
             let sh = self.shadow(a);
+            let got = if exec { Some(unsafe { cf(self.ptr(a)) }) } else { None };
             let exp = sh.as_ref().and_then(|v| mf(v));
             self.log(exp.map_or(u64::MAX, |x| x as u64));
             if exp.is_none() {
@@ -791,8 +794,7 @@ impl Sim {
                     self.wrong_kind += 1;
                 }
             }
-            if exec {
-                let got = unsafe { cf(self.ptr(a)) };
+            if let Some(got) = got {
                 if got != exp.unwrap_or(u32::MAX) {
                     self.mismatch(f, if exp.is_none() { "missing-failure" } else { "wrong-result" }, format!("{f} returned {got}, the model says {exp:?} (None = u32::MAX sentinel + error)"), matches!(a, HArg::Null));
                 }
@@ -804,6 +806,7 @@ impl Sim {
             self.calls += 1;
             self.note_args(&[a]);
             let sh = self.shadow(a);
+            let got = if exec { Some(unsafe { cf(self.ptr(a)) }) } else { None };
             let exp = sh.as_ref().and_then(|v| mf(v));
             self.log(exp.map_or(u64::MAX, |x| x as u64));
             if exp.is_none() {
@@ -812,8 +815,7 @@ impl Sim {
                     self.wrong_kind += 1;
                 }
             }
-            if exec {
-                let got = unsafe { cf(self.ptr(a)) };
+            if let Some(got) = got {
                 if got != exp.unwrap_or(usize::MAX) {
                     self.mismatch(f, if exp.is_none() { "missing-failure" } else { "wrong-result" }, format!("{f} returned {got}, the model says {exp:?} (None = usize::MAX sentinel + error)"), matches!(a, HArg::Null));
                 }
@@ -883,15 +885,6 @@ impl Sim {
         if MAKE0_FNS.contains(&f) {
             let Some(slot) = self.empty_val_slot(op, 0) else { return };
             self.calls += 1;
-            let exp = match f {
-                "haystack_value_init" => Value::default(),
-                "haystack_value_make_marker" => Value::make_marker(),
-                "haystack_value_make_na" => Value::make_na(),
-                "haystack_value_make_remove" => Value::make_remove(),
-                "haystack_value_make_list" => Value::make_list(List::new()),
-                "haystack_value_make_dict" => Value::make_dict(Dict::new()),
-                _ => Value::make_grid(Grid::make_empty()),
-            };
             let got = if exec {
                 Some(Some(unsafe {
                     match f {
@@ -907,6 +900,15 @@ impl Sim {
             } else {
                 None
             };
+            let exp = match f {
+                "haystack_value_init" => Value::default(),
+                "haystack_value_make_marker" => Value::make_marker(),
+                "haystack_value_make_na" => Value::make_na(),
+                "haystack_value_make_remove" => Value::make_remove(),
+                "haystack_value_make_list" => Value::make_list(List::new()),
+                "haystack_value_make_dict" => Value::make_dict(Dict::new()),
+                _ => Value::make_grid(Grid::make_empty()),
+            };
             self.finish_new(f, t, slot, Some(exp), got, false);
             return;
         }
@@ -918,12 +920,6 @@ impl Sim {
                 self.null_args += 1;
             }
             let text = s0.as_ref().and_then(|b| std::str::from_utf8(b).ok());
-            let exp = text.map(|s| match f {
-                "haystack_value_make_str" => Value::make_str(s),
-                "haystack_value_make_ref" => Value::make_ref(s),
-                "haystack_value_make_uri" => Value::make_uri(s),
-                _ => Value::make_symbol(s),
-            });
             let got = if exec {
                 let c = s0.as_ref().map(|b| CString::new(b.clone()).expect("no NUL"));
                 let p = c.as_ref().map_or(std::ptr::null(), |c| c.as_ptr());
@@ -938,6 +934,12 @@ impl Sim {
             } else {
                 None
             };
+            let exp = text.map(|s| match f {
+                "haystack_value_make_str" => Value::make_str(s),
+                "haystack_value_make_ref" => Value::make_ref(s),
+                "haystack_value_make_uri" => Value::make_uri(s),
+                _ => Value::make_symbol(s),
+            });
             self.finish_new(f, t, slot, exp, got, s0.is_none());
             return;
         }
@@ -1043,13 +1045,13 @@ impl Sim {
                     self.null_args += 1;
                 }
                 let x = f64::from_bits(n(0));
-                let exp = s0.as_ref().and_then(|b| std::str::from_utf8(b).ok()).and_then(get_unit).map(|u| Value::make_number_unit(x, u));
                 let got = if exec {
                     let c = s0.as_ref().map(|b| CString::new(b.clone()).expect("no NUL"));
                     Some(unsafe { haystack_value_make_number_with_unit(x, c.as_ref().map_or(std::ptr::null(), |c| c.as_ptr())) })
                 } else {
                     None
                 };
+                let exp = s0.as_ref().and_then(|b| std::str::from_utf8(b).ok()).and_then(get_unit).map(|u| Value::make_number_unit(x, u));
                 self.finish_new(f, t, slot, exp, got, s0.is_none());
             }
             "haystack_value_make_ref_with_dis" | "haystack_value_make_xstr" => {
@@ -1062,10 +1064,6 @@ impl Sim {
                 }
                 let t0 = s0.as_ref().and_then(|b| std::str::from_utf8(b).ok());
                 let t1 = s1.as_ref().and_then(|b| std::str::from_utf8(b).ok());
-                let exp = match (t0, t1) {
-                    (Some(a), Some(b)) => Some(if f == "haystack_value_make_xstr" { Value::make_xstr_from(a, b) } else { Value::make_ref_with_dis(a, b) }),
-                    _ => None,
-                };
                 let got = if exec {
                     let c0 = s0.as_ref().map(|b| CString::new(b.clone()).expect("no NUL"));
                     let c1 = s1.as_ref().map(|b| CString::new(b.clone()).expect("no NUL"));
@@ -1080,6 +1078,10 @@ impl Sim {
                 } else {
                     None
                 };
+                let exp = match (t0, t1) {
+                    (Some(a), Some(b)) => Some(if f == "haystack_value_make_xstr" { Value::make_xstr_from(a, b) } else { Value::make_ref_with_dis(a, b) }),
+                    _ => None,
+                };
                 self.finish_new(f, t, slot, exp, got, null_rel);
             }
             "haystack_value_make_time" | "haystack_value_make_time_millis" => {
@@ -1087,16 +1089,16 @@ impl Sim {
                 self.calls += 1;
                 let (h, m, s, ms) = (n(0) as u32, n(1) as u32, n(2) as u32, n(3) as u32);
                 let millis = f == "haystack_value_make_time_millis";
-                let exp = if millis { Time::from_hms_milli(h, m, s, ms) } else { Time::from_hms(h, m, s) }.ok().map(Value::Time);
                 let got = if exec { Some(if millis { haystack_value_make_time_millis(h, m, s, ms) } else { haystack_value_make_time(h, m, s) }) } else { None };
+                let exp = if millis { Time::from_hms_milli(h, m, s, ms) } else { Time::from_hms(h, m, s) }.ok().map(Value::Time);
                 self.finish_new(f, t, slot, exp, got, false);
             }
             "haystack_value_make_date" => {
                 let Some(slot) = self.empty_val_slot(op, 0) else { return };
                 self.calls += 1;
                 let (y, m, d) = (n(0) as i64 as i32, n(1) as u32, n(2) as u32);
-                let exp = Date::from_ymd(y, m, d).ok().map(Value::Date);
                 let got = if exec { Some(haystack_value_make_date(y, m, d)) } else { None };
+                let exp = Date::from_ymd(y, m, d).ok().map(Value::Date);
                 self.finish_new(f, t, slot, exp, got, false);
             }
             "haystack_value_make_utc_datetime" | "haystack_value_make_tz_datetime" => {
@@ -1110,6 +1112,18 @@ impl Sim {
                 if s0.is_none() {
                     self.null_args += 1;
                 }
+                let got = if exec {
+                    let c = s0.as_ref().map(|z| CString::new(z.clone()).expect("no NUL"));
+                    Some(unsafe {
+                        if tz {
+                            haystack_value_make_tz_datetime(self.ptr(a), self.ptr(b), c.as_ref().map_or(std::ptr::null(), |c| c.as_ptr()))
+                        } else {
+                            haystack_value_make_utc_datetime(self.ptr(a), self.ptr(b))
+                        }
+                    })
+                } else {
+                    None
+                };
                 let utc = match (self.shadow(a), self.shadow(b)) {
                     (Some(Value::Date(d)), Some(Value::Time(ti))) => Some(Utc.from_utc_datetime(&NaiveDateTime::new(*d, *ti))),
                     (x, y) => {
@@ -1127,24 +1141,13 @@ impl Sim {
                 } else {
                     utc.map(|u| Value::make_datetime(u.into()))
                 };
-                let got = if exec {
-                    let c = s0.as_ref().map(|z| CString::new(z.clone()).expect("no NUL"));
-                    Some(unsafe {
-                        if tz {
-                            haystack_value_make_tz_datetime(self.ptr(a), self.ptr(b), c.as_ref().map_or(std::ptr::null(), |c| c.as_ptr()))
-                        } else {
-                            haystack_value_make_utc_datetime(self.ptr(a), self.ptr(b))
-                        }
-                    })
-                } else {
-                    None
-                };
                 self.finish_new(f, t, slot, exp, got, null_rel);
             }
             "haystack_value_number_has_unit" => {
                 let Some(a) = self.harg(op, 0) else { return };
                 self.calls += 1;
                 self.note_args(&[a]);
+                let got = if exec { Some(unsafe { haystack_value_number_has_unit(self.ptr(a)) }) } else { None };
                 let exp = match self.shadow(a) {
                     Some(Value::Number(x)) => x.unit.is_some() as i32,
                     other => {
@@ -1154,7 +1157,6 @@ impl Sim {
                         -1
                     }
                 };
-                let got = if exec { Some(unsafe { haystack_value_number_has_unit(self.ptr(a)) }) } else { None };
                 self.finish_res(f, t, exp, got, matches!(a, HArg::Null));
             }
             "haystack_value_get_datetime_date" | "haystack_value_get_datetime_time" => {
@@ -1163,6 +1165,17 @@ impl Sim {
                 self.note_args(&[a, r]);
                 let utc = n(0) & 1 == 1;
                 let date = f == "haystack_value_get_datetime_date";
+                let got = if exec {
+                    Some(unsafe {
+                        if date {
+                            haystack_value_get_datetime_date(self.ptr(a), utc, self.ptr(r))
+                        } else {
+                            haystack_value_get_datetime_time(self.ptr(a), utc, self.ptr(r))
+                        }
+                    })
+                } else {
+                    None
+                };
                 let new = match (self.shadow(a), r) {
                     (Some(Value::DateTime(dt)), HArg::Slot(_)) => {
                         let nd = if utc { dt.naive_utc() } else { dt.naive_local() };
@@ -1174,17 +1187,6 @@ impl Sim {
                         }
                         None
                     }
-                };
-                let got = if exec {
-                    Some(unsafe {
-                        if date {
-                            haystack_value_get_datetime_date(self.ptr(a), utc, self.ptr(r))
-                        } else {
-                            haystack_value_get_datetime_time(self.ptr(a), utc, self.ptr(r))
-                        }
-                    })
-                } else {
-                    None
                 };
                 self.finish_res(f, t, if new.is_some() { 1 } else { -1 }, got, matches!(a, HArg::Null) || matches!(r, HArg::Null));
                 if let (Some(v), HArg::Slot(ri)) = (new, r) {
@@ -1441,14 +1443,6 @@ impl Sim {
                         None
                     }
                 };
-                let exp = if with_meta {
-                    match (base, self.shadow(meta)) {
-                        (Some(dicts), Some(Value::Dict(m))) => Some(Value::make_grid(Grid::make_from_dicts_with_meta(dicts, m))),
-                        _ => None,
-                    }
-                } else {
-                    base.map(Value::make_grid_from_dicts)
-                };
                 let got = if exec {
                     Some(unsafe {
                         if with_meta {
@@ -1459,6 +1453,14 @@ impl Sim {
                     })
                 } else {
                     None
+                };
+                let exp = if with_meta {
+                    match (base, self.shadow(meta)) {
+                        (Some(dicts), Some(Value::Dict(m))) => Some(Value::make_grid(Grid::make_from_dicts_with_meta(dicts, m))),
+                        _ => None,
+                    }
+                } else {
+                    base.map(Value::make_grid_from_dicts)
                 };
                 self.finish_new(f, t, slot, exp, got, matches!(rows, HArg::Null) || (with_meta && matches!(meta, HArg::Null)));
             }
